@@ -263,7 +263,9 @@ def gen_case(rng, est=None, kind=None, normalize=None, const_col=None):
         X[:, int(rng.integers(d))] = float(np.round(rng.normal(), 2))
     Xq, _ = gen_points(rng, 4, d, kind="plain", scale=0.8)
     if est == "time":
-        X = np.c_[X, np.repeat(np.arange(2.0), 10)[rng.permutation(n)]]
+        # two time points of unequal size, cells not grouped by time (a per-time-point quantity laid out in time-sorted order
+        # would land on the wrong cells)
+        X = np.c_[X, np.repeat(np.arange(2.0), [7, 13])[rng.permutation(n)]]
         Xq = np.c_[Xq, rng.uniform(0, 1, size=4)]
     cfg = CONFIGS[rng.integers(len(CONFIGS))]
     gp, Xu = {}, None
@@ -279,7 +281,8 @@ def gen_case(rng, est=None, kind=None, normalize=None, const_col=None):
         Xu = lm(6); gp = dict(gp_type="fixed")
     if est == "time" and (normalize if normalize is not None else rng.random() < 0.4):
         # per-time-point normalisation: the ls heuristic must keep using within-time-point distances
-        gp = dict(gp, normalize_per_time_point=True)
+        # (True: equal targets, so the correction differs between the unequal time points; a list: explicit unequal targets)
+        gp = dict(gp, normalize_per_time_point=[True, [4.0, 9.0]][int(rng.integers(2))])
     kinds = ["isometry", "scale", "perm"] + (["time"] if est == "time" else [])
     kind = kind or kinds[rng.integers(len(kinds))]
     p = {"op": "sym", "estimator": est, "config": cfg, "gp_kwargs": gp, "X": X, "Xu": Xu, "Xq": Xq, "kind": kind,
